@@ -376,7 +376,7 @@ def main(run):
                  dict(insert_after={"": "aspect,rad"}, magnetic=True)))
     stats["moved_sld_magnetic"] = 1
     # ... and with the new parameters placed BEHIND the orientation angles (the angle block is then no longer the tail
-    # of the table), all of them after phi, or split over theta and phi; evaluated in 2-D
+    # of the table), after phi (a parameter BETWEEN theta and phi is refused by the library: 'phi must follow theta'); evaluated in 2-D
     real.append(("ellipsoid", [["volume", "Ang^3", 1e5, [0, inf], "volume", ""], ["eccentricity", "", 1, [0, inf], "volume", ""]],
                  "Re = cbrt(volume/eccentricity/M_4PI_3)\nradius_polar = eccentricity*Re\nradius_equatorial = Re",
                  lambda p: dict(radius_polar=p["eccentricity"] * (p["volume"] / p["eccentricity"] / (4 * math.pi / 3)) ** (1 / 3), radius_equatorial=(p["volume"] / p["eccentricity"] / (4 * math.pi / 3)) ** (1 / 3)),
@@ -384,7 +384,7 @@ def main(run):
     real.append(("cylinder", [["aspect", "", 2.0, [0, inf], "volume", ""], ["rad", "Ang", 20, [0, inf], "volume", ""]],
                  "radius = rad\nlength = 2.0*aspect*rad",
                  lambda p: dict(radius=p["rad"], length=2.0 * p["aspect"] * p["rad"]), dict(aspect=(0.5, 8), rad=(10, 60)), "rad",
-                 dict(insert_after={"theta": "aspect", "phi": "rad"}, all_2d=True)))
+                 dict(insert_after={"phi": "rad,aspect"}, all_2d=True)))
     stats["new_parameters_behind_the_angles"] = 2
     real = [r_ if len(r_) == 7 else r_ + (dict(),) for r_ in real]
     for ri_, (bname, pdefs, text, tr, ranges, dpar, opts) in enumerate(real):
